@@ -45,6 +45,8 @@ type world struct {
 	// known values per position
 	hyperK map[string][][]byte
 	histK  map[string][][]byte
+	// memo of the real hyper verifier's verdicts per (path, key, value)
+	hyperMemo map[hyperKey][]bool
 }
 
 type candDesc struct {
@@ -55,6 +57,7 @@ type candDesc struct {
 	Exists bool     `json:"exists"`
 	Actual uint64   `json:"actual"`
 	Query  uint64   `json:"query"`
+	Current uint64  `json:"current"`
 	A      int      `json:"historySnapshot"`
 	B      int      `json:"hyperSnapshot"`
 }
@@ -97,7 +100,7 @@ func sortedKeys(m map[string]hashing.Digest) []string {
 }
 
 func buildWorld(names []string, qnames []string) (*world, error) {
-	w := &world{names: names, qnames: qnames, qdigs: map[string][]byte{}, hyperK: map[string][][]byte{}, histK: map[string][][]byte{}}
+	w := &world{names: names, qnames: qnames, qdigs: map[string][]byte{}, hyperK: map[string][][]byte{}, histK: map[string][][]byte{}, hyperMemo: map[hyperKey][]bool{}}
 	for _, nd := range hx.ByName(names...) {
 		w.digs = append(w.digs, nd.D)
 	}
@@ -180,15 +183,63 @@ func (w *world) isMember(d []byte) bool {
 
 var evals int64
 
-// check hands one candidate to the real decoder + verifier against every authentic pair.
+// fingerprint of a hyper audit path (order independent)
+func fpPath(m map[string]hashing.Digest) [2]uint64 {
+	var a, b uint64
+	for k, v := range m {
+		h1, h2 := uint64(14695981039346656037), uint64(1099511628211)
+		for i := 0; i < len(k); i++ {
+			h1 = (h1 ^ uint64(k[i])) * 1099511628211
+			h2 = h2*31 + uint64(k[i])
+		}
+		for i := 0; i < len(v); i++ {
+			h1 = (h1 ^ uint64(v[i])) * 1099511628211
+			h2 = h2*131 + uint64(v[i])
+		}
+		a += h1
+		b += h2
+	}
+	return [2]uint64{a + uint64(len(m)), b}
+}
+
+type hyperKey struct {
+	fp  [2]uint64
+	key string
+	av  uint64
+}
+
+// check hands one candidate to the real decoder + verifier.
+// Reduction (stated in the evidence): the real component verifiers are run against EVERY authentic
+// digest (hyper part memoised: it is a pure function of path, key and value); the real DigestVerify is
+// then run on every pair (a,b) for which either component accepted, plus - for the scalar class, which
+// contains every genuine answer - the pair (0,0).
 func (w *world) check(r *ev.Run, mr *protocol.MembershipResult, base genuine, edit string) {
+	defaultPair := edit == "scalars"
 	var p *balloon.MembershipProof
 	if pn, _ := ev.Catch(func() { p = protocol.ToBalloonProof(mr, hashing.NewSha256Hasher) }); pn {
 		return // decoder failure on a hostile answer: C12's subject
 	}
 	n := len(w.digs)
+	hk := hyperKey{fpPath(mr.Hyper), string(mr.KeyDigest), mr.ActualVersion}
+	hyperOK, ok := w.hyperMemo[hk]
+	if !ok {
+		hyperOK = make([]bool, n)
+		for b := 0; b < n; b++ {
+			ev.Catch(func() { hyperOK[b] = p.HyperProof.Verify(mr.KeyDigest, w.snaps[b].HyperDigest) })
+			atomic.AddInt64(&evals, 1)
+		}
+		w.hyperMemo[hk] = hyperOK
+	}
+	histOK := make([]bool, n)
+	for a := 0; a < n; a++ {
+		ev.Catch(func() { histOK[a] = p.HistoryProof.Verify(mr.KeyDigest, w.snaps[a].HistoryDigest) })
+		atomic.AddInt64(&evals, 1)
+	}
 	for a := 0; a < n; a++ {
 		for b := 0; b < n; b++ {
+			if !(histOK[a] || hyperOK[b] || (defaultPair && a == 0 && b == 0)) {
+				continue
+			}
 			snap := &balloon.Snapshot{HistoryDigest: w.snaps[a].HistoryDigest, HyperDigest: w.snaps[b].HyperDigest, Version: uint64(a)}
 			var acc bool
 			pn, _ := ev.Catch(func() { acc = p.DigestVerify(mr.KeyDigest, snap) })
@@ -204,7 +255,7 @@ func (w *world) check(r *ev.Run, mr *protocol.MembershipResult, base genuine, ed
 				}
 			}
 			desc := candDesc{Log: w.names, Base: fmt.Sprintf("answer(prefix=%d,digest=%s,q=%d)", base.M, base.D, base.Q), Edit: edit, Key: keyName,
-				Exists: mr.Exists, Actual: mr.ActualVersion, Query: mr.QueryVersion, A: a, B: b}
+				Exists: mr.Exists, Actual: mr.ActualVersion, Query: mr.QueryVersion, Current: mr.CurrentVersion, A: a, B: b}
 			switch {
 			case !mr.Exists && w.isMember(mr.KeyDigest):
 				r.Violation("verifier accepts a claim of ABSENCE for an event that is present (Exists=false skips every check but the hyper path)", desc)
@@ -224,20 +275,65 @@ func (w *world) check(r *ev.Run, mr *protocol.MembershipResult, base genuine, ed
 }
 
 func (w *world) explore(r *ev.Run, thorough bool) {
-	// (i) scalar fields over their whole domain, for every genuine answer
+	// (i) scalar fields over their whole domain, for every genuine answer (maps are shared: the decoder
+	// copies the history path and only reads the hyper path)
 	for _, g := range w.ans {
 		for _, ex := range []bool{true, false} {
 			for _, av := range w.vals {
 				for _, qv := range w.vals {
-					for _, kn := range w.qnames {
-						c := copyMR(g.MR)
-						c.Exists, c.ActualVersion, c.QueryVersion, c.KeyDigest = ex, av, qv, w.qdigs[kn]
-						w.check(r, c, g, "scalars")
+					cvs := []uint64{g.MR.CurrentVersion}
+					if ex { // CurrentVersion is attacker-controlled too; it is not an input of today's verifier, so it is varied on existence claims only
+						cvs = w.vals
+					}
+					for _, cv := range cvs {
+						for _, kn := range w.qnames {
+							c := *g.MR
+							c.Exists, c.ActualVersion, c.QueryVersion, c.CurrentVersion, c.KeyDigest = ex, av, qv, cv, w.qdigs[kn]
+							w.check(r, &c, g, "scalars")
+						}
 					}
 				}
 			}
 		}
 		r.Distinct(fmt.Sprintf("scalars %v %d %s %d", w.names, g.M, g.D, g.Q))
+	}
+	// (v) glued entries: hashes are H(left||right||pos) without length framing, so an entry holding
+	// value(i,h)||value(i+2^h,h) turns a partial parent into the full one; combined with every version triple
+	for _, g := range w.ans {
+		if !g.MR.Exists {
+			continue
+		}
+		n := uint64(len(w.digs))
+		for i := uint64(0); i < n; i++ {
+			for h := uint16(0); h <= ref.RootHeight(n); h++ {
+				if i%(uint64(1)<<h) != 0 || (i>>h)%2 != 0 {
+					continue
+				}
+				k1, k2 := fmt.Sprintf("%d|%d", i, h), fmt.Sprintf("%d|%d", i+(uint64(1)<<h), h)
+				for _, v1 := range w.histK[k1] {
+					for _, v2 := range w.histK[k2] {
+						glued := append(append([]byte{}, v1...), v2...)
+						// version triples: any CurrentVersion x (genuine (actual, query) and every single edit of either)
+						type aq struct{ a, q uint64 }
+						pairs := []aq{{g.MR.ActualVersion, g.MR.QueryVersion}}
+						for _, v := range w.vals {
+							pairs = append(pairs, aq{v, g.MR.QueryVersion}, aq{g.MR.ActualVersion, v}, aq{v, v})
+						}
+						for _, x := range pairs {
+							for _, cv := range w.vals {
+								for _, kn := range w.qnames {
+									c := copyMR(g.MR)
+									c.History[k1] = glued
+									c.ActualVersion, c.QueryVersion, c.CurrentVersion, c.KeyDigest = x.a, x.q, cv, w.qdigs[kn]
+									w.check(r, c, g, "history entry "+k1+" = value("+k1+")||value("+k2+") (glued)")
+								}
+							}
+						}
+					}
+				}
+			}
+		}
+		r.Distinct(fmt.Sprintf("glue %v %d %s %d", w.names, g.M, g.D, g.Q))
 	}
 	// (ii) audit-path subsets / truncations / extensions
 	for _, g := range w.ans {
@@ -406,6 +502,11 @@ func TestC02(t *testing.T) {
 					names[i] = s.sub[a]
 				}
 				jobs = append(jobs, job{names, s.q})
+			}
+		}
+		if !r.Thorough() { // a few logs of four events: the smallest size at which version n-1 and n-2 share a root height
+			for _, names := range [][]string{{"Z", "Y24", "Y255", "X"}, {"X", "Z", "Y24", "Y255"}, {"Y24", "X", "Y255", "Z"}, {"Z", "Y255", "X", "Y24"}, {"Z", "T", "Sa", "X"}} {
+				jobs = append(jobs, job{names, []string{"X", "Y255", "Y24", "Z", "Y254", "Y128", "T", "Sa"}})
 			}
 		}
 	}
